@@ -312,13 +312,13 @@ def run_generic(key):
     for name, p in cfgs:
         if name == 'greedy_aligner':
             al = pa.GreedyPermutationAlignment(similarity_metric=metric, algorithm=alg)
-            ref, amb = R.greedy_chain(mask, metric)
+            ref, amb = R.greedy_chain(mask, metric, strict=True)
         else:
             al = pa.DHTVPermutationAlignment(
                 stft_size=2 * (F - 1), segment_start=p[0], segment_width=p[1],
                 segment_shift=p[2], main_iterations=4, sub_iterations=2,
                 similarity_metric=metric, algorithm=alg)
-            ref, _, amb = R.dhtv(mask, F, p[0], p[1], p[2], 4, 2, metric, alg)
+            ref, _, amb = R.dhtv(mask, F, p[0], p[1], p[2], 4, 2, metric, alg, strict=True)
         what = f'{name}{p}({metric},{alg})'
         try:
             m = al.calculate_mapping(mask)
